@@ -19,6 +19,7 @@ mod c15;
 mod c14;
 mod wb;
 mod c02;
+mod c03;
 mod c05;
 mod c06;
 mod c01;
@@ -59,6 +60,7 @@ fn main() {
         "c15" => c15::run(&mut out, tier, seed, replay),
         "c14" => c14::run(&mut out, tier, seed, replay),
         "c02" => c02::run(&mut out, tier, seed, replay),
+        "c03" => c03::run(&mut out, tier, seed, replay),
         "c05" => c05::run(&mut out, tier, seed, replay),
         "c06" => c06::run(&mut out, tier, seed, replay),
         "c01" => c01::run(&mut out, tier, seed, replay),
